@@ -9,6 +9,20 @@ def norm_collision(n):
     return n
 
 
+def lexical(p):
+    """Lexical normal form of a path in an error message (prefix <ROOT> kept)."""
+    import posixpath
+    if not isinstance(p, str):
+        return p
+    pre = ""
+    if p.startswith("<ROOT>"):
+        pre, p = "<ROOT>", p[len("<ROOT>"):]
+    q = posixpath.normpath(p) if p else p
+    if q.startswith("//"):
+        q = q[1:]
+    return pre + q
+
+
 class InvProp(Prop):
     serial = False
     # which parts of the observation this property compares
@@ -50,6 +64,8 @@ class InvProp(Prop):
         elif di[0] == "err" and di[1][0] == "collision":
             # both report a collision for the same name: the pair must be the same two files
             ia = core.C.classify(impl["discover"]["err"])
+            # the message spells the files below the directory as configured (./nodes, nodes//, a/../nodes): the same files
+            ia = ia[:2] + [lexical(x) for x in ia[2:4]] + ia[4:]
             col = (model.get("colliders") or {}).get(ia[1])
             if col is None:
                 why.append("collision error names %r, which no two listed files derive (colliding names: %s)" % (ia[1], sorted((model.get("colliders") or {}).keys())))
